@@ -14,6 +14,7 @@ import (
 	mintv3 "github.com/chain4energy/c4e-chain/x/cfeminter/migrations/v3"
 	minttypes "github.com/chain4energy/c4e-chain/x/cfeminter/types"
 	sdk "github.com/cosmos/cosmos-sdk/types"
+	authtypes "github.com/cosmos/cosmos-sdk/x/auth/types"
 )
 
 var eps6 = new(big.Rat).SetFrac64(1, 1_000_000)
@@ -53,6 +54,10 @@ func runC02(c *fw.Case) {
 	}
 	if c.Index%16 == 9 {
 		c02UpdateProbe(c)
+		return
+	}
+	if c.Index%16 == 5 {
+		c02RestartProbe(c)
 		return
 	}
 	mc := gen.Minters(c.R, gen.MintDenom(c.R), 36)
@@ -101,7 +106,7 @@ func runC02(c *fw.Case) {
 
 // c02BeforeBlock, when set by a probe, runs before block i of a partition (on the
 // committed state of the previous block); returning false ends the case.
-var c02BeforeBlock func(c *fw.Case, n *chain.Node, i int) bool
+var c02BeforeBlock func(c *fw.Case, n *chain.Node, i int) (*chain.Node, bool)
 
 // c02GenesisParams, when set by a probe, replaces the parameters the chain starts with (the
 // schedule the blocks are compared with stays the one passed to c02RunPartition).
@@ -112,7 +117,13 @@ func c02RunPartition(c *fw.Case, mc gen.MinterConfig, times []time.Time, pi int)
 	if c02GenesisParams != nil {
 		genesisParams = *c02GenesisParams
 	}
-	n, err := chain.NewNode(chain.GenesisSpec{Time: gen.Epoch, Minter: minterGenesis(genesisParams, gen.Epoch)})
+	spec := chain.GenesisSpec{Time: gen.Epoch, Minter: minterGenesis(genesisParams, gen.Epoch)}
+	if c.Index%8 == 6 {
+		// coins resting on the minter's own module account are not part of the emission
+		spec.Accounts = []chain.GenAccount{{Account: authtypes.NewEmptyModuleAccount(minttypes.ModuleName, authtypes.Minter, authtypes.Burner, authtypes.Staking),
+			Coins: sdk.NewCoins(sdk.NewCoin(mc.Params.MintDenom, sdk.NewIntFromBigInt(new(big.Int).Add(gen.BigAmount(c.R, 24), big.NewInt(1)))))}}
+	}
+	n, err := chain.NewNode(spec)
 	if err != nil {
 		if p := asPanic(err); p != nil {
 			c.Violate("C02/initchain-panic", "InitChain panicked for a valid configuration: %s", short(p.Value, 300))
@@ -132,8 +143,14 @@ func c02RunPartition(c *fw.Case, mc gen.MinterConfig, times []time.Time, pi int)
 		}
 	}
 	for bi, t := range times {
-		if c02BeforeBlock != nil && !c02BeforeBlock(c, n, bi) {
-			return nil, false, false, false, nil
+		if c02BeforeBlock != nil {
+			repl, ok := c02BeforeBlock(c, n, bi)
+			if !ok {
+				return nil, false, false, false, nil
+			}
+			if repl != nil {
+				n = repl // the chain continues on another application (a restart from an export)
+			}
 		}
 		before := n.App.BankKeeper.GetSupply(n.Ctx(), denom).Amount.BigInt()
 		res, err := n.BeginBlock(t)
@@ -272,9 +289,9 @@ func c02MigrationProbe(c *fw.Case) {
 	}
 	at := 1 + c.R.Intn(len(times)-1)
 	migrated := false
-	c02BeforeBlock = func(c *fw.Case, n *chain.Node, i int) bool {
+	c02BeforeBlock = func(c *fw.Case, n *chain.Node, i int) (*chain.Node, bool) {
 		if i != at {
-			return true
+			return nil, true
 		}
 		ctx := n.Ctx()
 		app := n.App
@@ -310,11 +327,11 @@ func c02MigrationProbe(c *fw.Case) {
 		}()
 		if err != nil {
 			c.ViolateD("C02/params-migration-failed", map[string]string{"params": mc.Describe()}, "the v2 -> v3 parameter migration of a valid emission configuration failed before block %d: %v", i, err)
-			return false
+			return nil, false
 		}
 		migrated = true
 		c.Count("params_migrations_mid_schedule", 1)
-		return true
+		return nil, true
 	}
 	defer func() { c02BeforeBlock = nil }()
 	cum, _, _, _, _ := c02RunPartition(c, mc, times, 0)
@@ -345,9 +362,9 @@ func c02UpdateProbe(c *fw.Case) {
 	}
 	c02GenesisParams = &early
 	accepted := false
-	c02BeforeBlock = func(c *fw.Case, n *chain.Node, i int) bool {
+	c02BeforeBlock = func(c *fw.Case, n *chain.Node, i int) (*chain.Node, bool) {
 		if i != 0 {
-			return true
+			return nil, true
 		}
 		var msg sdk.Msg = &minttypes.MsgUpdateMintersParams{Authority: govAuthority(), StartTime: mc.Params.StartTime, Minters: mc.Params.Minters}
 		if c.R.Intn(2) == 0 {
@@ -356,14 +373,14 @@ func c02UpdateProbe(c *fw.Case) {
 		if _, _, err := n.GovExec(msg); err != nil {
 			if p := asPanic(err); p != nil {
 				c.ViolateD("C10/update-panic", p.Stack, "minter update panicked: %s", short(p.Value, 200))
-				return false
+				return nil, false
 			}
 			c.Count("update_probe_updates_refused", 1)
-			return false
+			return nil, false
 		}
 		accepted = true
 		c.Count("update_probe_updates_accepted", 1)
-		return true
+		return nil, true
 	}
 	defer func() { c02BeforeBlock, c02GenesisParams = nil, nil }()
 	cum, _, _, _, _ := c02RunPartition(c, mc, times, 0)
@@ -387,9 +404,9 @@ func c02DiscardedUpdateProbe(c *fw.Case) {
 	}
 	at := c.R.Intn(len(times) - 1)
 	ran := false
-	c02BeforeBlock = func(c *fw.Case, n *chain.Node, i int) bool {
+	c02BeforeBlock = func(c *fw.Case, n *chain.Node, i int) (*chain.Node, bool) {
 		if i != at {
-			return true
+			return nil, true
 		}
 		// periods renumbered so that the current period exists in the other schedule too
 		cur := n.App.CfeminterKeeper.GetMinterState(n.Ctx()).SequenceId
@@ -404,13 +421,13 @@ func c02DiscardedUpdateProbe(c *fw.Case) {
 		msg := msgs[c.R.Intn(2)]
 		handler := n.App.MsgServiceRouter().Handler(msg)
 		if handler == nil {
-			return true
+			return nil, true
 		}
 		cctx, _ := n.Ctx().CacheContext()
 		var herr error
 		if p := safeCall("handler", func() { _, herr = handler(cctx, msg) }); p != nil {
 			c.ViolateD("C10/update-panic", p.Stack, "minter update panicked: %s", short(p.Value, 200))
-			return false
+			return nil, false
 		}
 		ran = true
 		if herr == nil {
@@ -418,9 +435,53 @@ func c02DiscardedUpdateProbe(c *fw.Case) {
 		} else {
 			c.Count("discarded_updates_that_had_been_refused", 1)
 		}
-		return true
+		return nil, true
 	}
 	defer func() { c02BeforeBlock = nil }()
 	cum, _, _, _, _ := c02RunPartition(c, mc, times, 0)
 	c.Nontrivial(ran && cum != nil && cum.Sign() > 0 && c.NViol() == 0)
+}
+
+// c02RestartProbe: a restart from an exported genesis (the way a chain is carried over a
+// hard fork) in the middle of a schedule does not bend it. At one block of the partition the
+// application state is exported and a fresh application is started from it; the remaining
+// blocks run on that application and are compared with the same schedule.
+func c02RestartProbe(c *fw.Case) {
+	mc := gen.Minters(c.R, gen.MintDenom(c.R), 36)
+	horizon := mc.Horizon(c.R)
+	bounds := mc.Schedule.Boundaries(horizon, 40)
+	times := gen.Partition(c.R, gen.Epoch, horizon, bounds, c.R.Intn(5), 40)
+	c.Describe("restart", strings.Join(mc.Desc, ""), mc.Describe())
+	if len(times) < 3 {
+		return
+	}
+	at := 1 + c.R.Intn(len(times)-1)
+	restarted := false
+	c02BeforeBlock = func(c *fw.Case, n *chain.Node, i int) (*chain.Node, bool) {
+		if i != at {
+			return nil, true
+		}
+		exp, height, err := n.Export()
+		if err != nil {
+			if p := asPanic(err); p != nil {
+				c.ViolateD("C12/export-panic/"+panicKey(p.Stack), p.Stack, "export panicked: %s", short(p.Value, 200))
+			}
+			return nil, false
+		}
+		fresh, err := chain.NewNodeFromGenesis(exp, times[i-1], height)
+		if err != nil {
+			if p := asPanic(err); p != nil {
+				c.ViolateD("C12/import-panic/"+panicKey(p.Stack), map[string]string{"stack": short(p.Stack, 3000), "panic": p.Value}, "InitChain from the exported genesis panicked: %s", short(p.Value, 300))
+			} else {
+				c.Count("restart_probe_imports_refused", 1)
+			}
+			return nil, false
+		}
+		restarted = true
+		c.Count("restarts_from_exported_genesis_mid_schedule", 1)
+		return fresh, true
+	}
+	defer func() { c02BeforeBlock = nil }()
+	cum, _, _, _, _ := c02RunPartition(c, mc, times, 0)
+	c.Nontrivial(restarted && cum != nil && cum.Sign() > 0 && c.NViol() == 0)
 }
